@@ -697,6 +697,8 @@ def run_iapply(case, npz):
 
         def go(theta=theta, parity=parity, meth=meth, o=o, q=q):
             U = gate_mpo(site, L, theta, parity)
+            if Lp != L:
+                U.enlarge_mps_unit_cell(Lp // L)            # (MPO.apply requires equal unit cells)
             U.test_sanity()
             o['U_meta'] = meta(U)
             rec.mats['U/%d' % q] = dense_any(U, 2, first=parity)        # the two-site gate itself
